@@ -60,6 +60,36 @@ type Deep struct {
 	Top bool `db:"top"`
 }
 
+// Deep3 / Deep4 / Wide reach members through three and four levels of embedding, with
+// several members at the deepest level and siblings after the embedded field.
+type Coords struct {
+	X   float64 `db:"cx"`
+	Y   float64 `db:"cy"`
+	Alt int64   `db:"alt"`
+}
+
+type Place struct {
+	Coords
+	Label string `db:"label"`
+}
+
+type Building struct {
+	Floors int `db:"floors"`
+	Place
+	Owner string `db:"owner"`
+}
+
+type Deep3 struct {
+	Building
+	Name string `db:"site"`
+}
+
+type Deep4 struct {
+	Tag string `db:"tag"`
+	*Deep3
+	Last int `db:"last"`
+}
+
 // Tags has unusual but valid tags.
 type Tags struct {
 	A int    `db:"名前"`
@@ -245,6 +275,8 @@ var Entries = []Entry{
 	e(Loc{}, "struct", false, "lat", "lon"),
 	e(EmbPtr{}, "struct", false, "lat", "lon", "n"),
 	e(Deep{}, "struct", false, "id", "name", "address_id", "extra", "lat", "lon", "n", "top"),
+	e(Deep3{}, "struct", false, "cx", "cy", "alt", "label", "floors", "owner", "site"),
+	e(Deep4{}, "struct", false, "cx", "cy", "alt", "label", "floors", "owner", "site", "tag", "last"),
 	e(Tags{}, "struct", false, "名前", "9", "\"quoted\"", "'q k'", "_x", "col_1", "é"),
 	e(Kinds{}, "struct", false, "i", "i8", "u16", "i64", "s", "b", "f", "bs", "ps", "pi", "ns", "ni", "v", "pv", "anyf", "mi", "ms"),
 	e(EmbTagged{}, "struct", false, "myv", "z"),
